@@ -6,6 +6,14 @@
  *   cert <mode> <entry>... name:<hex>          -> "rc=<0|-1|-2> err=<class> contains=<0|1>"
  *   hs   <mode> <entry>... name:<hex>          -> "hs=<ok|fail> err=<class>"   (real handshake over a
  *                                                 socketpair, self-signed cert, verify_cert off)
+ *   Client-context reuse (one persistent client context per #case, created on first use):
+ *   cnew                                       -> "ok"   drop the persistent context (next use makes a fresh one)
+ *   cfail <mode> name:<hex>                    -> "connect=fail"  a tls_connect_fds() for <name> that fails
+ *                                                 half-way (verify_cert on, CA file unreadable)
+ *   creset                                     -> "ok"   tls_reset() on the persistent context
+ *   chs  <mode> <entry>... name:<hex>          -> like hs, but on the persistent context (re-configured
+ *                                                 with the working config, NOT reset): the handshake
+ *                                                 must judge the name given to THIS connect call
  *   xpairs <mode> <san-dns|cn> <alpha-hex> <Lc> <Ln> <lo> <hi> -> "h=<fnv64> ok=<n> nomatch=<n> err=<n>"
  *        range-hash protocol over the exhaustive domain: pair index p in [lo,hi) denotes
  *        (cert string #p/N(Ln), name #p%N(Ln)) where string #i enumerates all strings over the
@@ -197,9 +205,37 @@ static void set_nonblock(int fd)
  * TLS_WANT_POLLIN / TLS_WANT_POLLOUT mean "call again", 0 is success, anything else is failure.
  * Prints hs=ok | hs=fail | hs=stuck (client still wants to poll after 200 rounds) and the class of
  * the client's tls_error text. */
-static void do_handshake(X509 *x, const char *name)
+static struct tls_config *g_good_cfg, *g_bad_cfg;
+static struct tls *g_pcli;		/* persistent client context of the current #case */
+
+static void cfg_init(void)
 {
-	struct tls_config *scfg = NULL, *ccfg = NULL;
+	if (g_good_cfg)
+		return;
+	g_good_cfg = tls_config_new();
+	tls_config_insecure_noverifycert(g_good_cfg);	/* verify_name stays enabled */
+	g_bad_cfg = tls_config_new();
+	tls_config_set_ca_file(g_bad_cfg, "/nonexistent/verif-C08/ca-bundle.crt");
+}
+
+static struct tls *pcli_get(void)
+{
+	if (!g_pcli)
+		g_pcli = tls_client();
+	return g_pcli;
+}
+
+static void pcli_drop(void)
+{
+	if (g_pcli)
+		usual_tls_free(g_pcli);
+	g_pcli = NULL;
+}
+
+/* pcli != NULL: use (and keep) this client context instead of a fresh one */
+static void do_handshake(X509 *x, const char *name, struct tls *pcli)
+{
+	struct tls_config *scfg = NULL;
 	struct tls *srv = NULL, *sconn = NULL, *cli = NULL;
 	int sv[2] = { -1, -1 };
 	BIO *b;
@@ -209,6 +245,7 @@ static void do_handshake(X509 *x, const char *name)
 	const char *stage = "";
 
 	hs_init();
+	cfg_init();
 	/* finish and self-sign the certificate */
 	X509_set_version(x, 2);
 	ASN1_INTEGER_set(X509_get_serialNumber(x), 1);
@@ -222,14 +259,13 @@ static void do_handshake(X509 *x, const char *name)
 	clen = BIO_get_mem_data(b, &cpem);
 
 	scfg = tls_config_new();
-	ccfg = tls_config_new();
 	if (tls_config_set_keypair_mem(scfg, (const uint8_t *)cpem, clen,
 				       (const uint8_t *)g_key_pem, g_key_pem_len) != 0) { stage = "keypair"; goto setup_fail; }
-	tls_config_insecure_noverifycert(ccfg);       /* verify_name stays enabled */
 	srv = tls_server();
-	cli = tls_client();
+	cli = pcli ? pcli : tls_client();
 	if (tls_configure(srv, scfg) != 0) { stage = "srvcfg"; goto setup_fail; }
-	if (tls_configure(cli, ccfg) != 0) { stage = "clicfg"; goto setup_fail; }
+	if (tls_configure(cli, g_good_cfg) != 0) { stage = "clicfg"; goto setup_fail; }
+	clear_error(cli);	/* an application reads tls_error only after a failure of THIS attempt */
 	if (socketpair(AF_UNIX, SOCK_STREAM, 0, sv) != 0) { stage = "socketpair"; goto setup_fail; }
 	set_nonblock(sv[0]);
 	set_nonblock(sv[1]);
@@ -266,11 +302,10 @@ setup_fail:
 	printf("hs=setup-fail err=%s\n", stage);
 out:
 	BIO_free(b);
-	if (cli) usual_tls_free(cli);
+	if (cli && !pcli) usual_tls_free(cli);
 	if (sconn) usual_tls_free(sconn);
 	if (srv) usual_tls_free(srv);
 	if (scfg) tls_config_free(scfg);
-	if (ccfg) tls_config_free(ccfg);
 	if (sv[0] >= 0) close(sv[0]);
 	if (sv[1] >= 0) close(sv[1]);
 }
@@ -364,12 +399,34 @@ int main(void)
 		int n;
 
 		if (strcmp(line, "#case") == 0) {
+			pcli_drop();
 			puts("#case");
+			continue;
+		}
+		if (strcmp(line, "cnew") == 0) {
+			pcli_drop();
+			puts("ok");
+			continue;
+		}
+		if (strcmp(line, "creset") == 0) {
+			tls_reset(pcli_get());
+			puts("ok");
 			continue;
 		}
 		n = hc_words(line, w, 64);
 		if (n >= 2 && (strcmp(w[1], "g") == 0 || strcmp(w[1], "c") == 0) && w[1][0] != MY_MODE) {
 			puts("bad-mode");
+			continue;
+		}
+		if (n == 3 && strcmp(w[0], "cfail") == 0 && strlen(w[1]) == 1) {
+			char *name = parse_name(w[2]);
+			struct tls *c;
+			if (!name) { puts("bad-op"); continue; }
+			cfg_init();
+			c = pcli_get();
+			tls_configure(c, g_bad_cfg);
+			printf("connect=%s\n", tls_connect_fds(c, 0, 0, name) == 0 ? "ok" : "fail");
+			free(name);
 			continue;
 		}
 		if (n == 3 && strcmp(w[0], "pton") == 0 && strlen(w[1]) == 1) {
@@ -409,9 +466,10 @@ int main(void)
 			continue;
 		}
 		if (n >= 3 && n < 64 && strlen(w[1]) == 1 &&
-		    (strcmp(w[0], "cert") == 0 || strcmp(w[0], "hs") == 0)) {
+		    (strcmp(w[0], "cert") == 0 || strcmp(w[0], "hs") == 0 || strcmp(w[0], "chs") == 0)) {
 			int bad = 0;
-			int is_hs = (w[0][0] == 'h');
+			int is_chs = (strcmp(w[0], "chs") == 0);
+			int is_hs = (w[0][0] == 'h') || is_chs;
 			char *name = parse_name(w[n - 1]);
 			X509 *x;
 			if (!name) { puts("bad-op"); continue; }
@@ -422,7 +480,7 @@ int main(void)
 				continue;
 			}
 			if (is_hs) {
-				do_handshake(x, name);
+				do_handshake(x, name, is_chs ? pcli_get() : NULL);
 			} else {
 				int rc, contains;
 				const char *cls;
